@@ -11,6 +11,22 @@ FAMILIES below, matched on the rejected expression):
        fix: combine the constants only if their quotient is exact          key fold-inexact-constant-quotient
   new  (thorough) x - 1e20 - .5 folds the constants first and gives 0 instead of -.5 for x = 1e20;
        no fix proposed (inherent to re-associating 16-digit decimals)   key fold-reassociation-absorbs-small-term
+  new  (thorough) a + (b - c) is flattened to a + b - c by the folder, also without constants: 0 for
+       (.001, 1e20, 1e20), while .001 + (1e20 - 1e20) folds to .001; fold_test expects the flattening
+                                                                         key fold-nested-sum-flattened
+  new  (thorough) a / b / c runs as a / (b * c): a zero divisor loses the sign of the other divisor
+       (-inf), constants folded first keep it: -1 / -2.5 / c = .4 / c = +inf   key fold-zero-divisor-loses-sign
+  new  (thorough) core.OpMul wraps at 64 bits (4294967295 * 4294967295 = -8589934591): x / 10 * 4294967295
+       (folded: x * 429496729.5) differs from a / b * c = (a * c) / b; fix: 97f2d14 in /tmp/wt-c30b
+                                                                         key int-mul-overflow-wraps
+
+Attribution of rejected expressions to these keys (classify): the driver writes, next to the trace,
+<trace>.sub with the run-time result of every subexpression (real interpreter), and the arithmetic
+witnesses ((1 / d) * c differs from c / d, a quotient of constants is inexact, ...) are computed
+with an exact port of util/dnum + the integer fast paths of core/ops.go (cross-checked against the
+real code).  Before, operand values were re-computed in Python with 60-digit / round-half-even
+decimals and without % << >> =~ unary +: 1.5 / 1.5 (dnum.Div truncates 1 / 1.5), 255 << 255 & 1.5,
+2 * (100000 % 1), .5 and 1.5 <= +1 were rejected but not attributed (false VIOLATION, thorough).
 
 Mutation testing (scratch worktree on top of the fix commits, quick tier, seed 1; "tests" =
 go test -short ./compile/ ./compile/ast/ with the mutant):
@@ -52,71 +68,390 @@ META = {
 FAMILIES = {
     "fold-absorbing-shortcut": "absorbing-element shortcut (x and false, x or true, x * 0, x & 0, x | 0xffffffff) drops operands that are still evaluated / type checked at run time",
     "fold-bits-32bit-allones": "& and | are folded with a 32-bit all-ones identity (e.g. -1 & -1 folds to 4294967295)",
-    "fold-const-div-var-reciprocal": "constant / variable is compiled as (1 / variable) * constant (255 / 3 gives 84.99999999999999)",
+    "fold-const-div-var-reciprocal": "constant / variable is compiled as (1 / variable) * constant (255 / 3 gives 84.99999999999999, 1.5 / 1.5 gives .9999999999999999: dnum.Div truncates 1 / 1.5 to .6666666666666666)",
     "fold-inexact-constant-quotient": "the constants of a * / chain are divided at compile time: x * 10 / 3 becomes x * 3.333333333333333 (9.999999999999999 instead of 10 for x = 3)",
     "fold-reassociation-absorbs-small-term": "constants of a + / - chain are combined first: x - 1e20 - .5 becomes x + (-1e20 - .5) = x - 1e20, so for x = 1e20 the result is 0 instead of -.5 (16-digit decimal arithmetic is not associative)",
+    "fold-nested-sum-flattened": "a + (b - c) is flattened to the n-ary a + b - c by the folder (commutative / nestedNary) even when nothing is constant: .001 + (x - 1e20) gives 0 for x = 1e20, while the constant form .001 + (1e20 - 1e20) folds the parenthesis first and gives .001",
+    "fold-zero-divisor-loses-sign": "a / b / c is compiled as a / (b * c); with a zero divisor the product is 0 and the sign of the other divisor is lost: a / b / c gives -inf for a = -1, b = -2.5, c = 0, but with the constants folded first (-1 / -2.5 / c = .4 / c) +inf",
+    "int-mul-overflow-wraps": "core.OpMul multiplies integers without an overflow check (4294967295 * 4294967295 = -8589934591); folding changes which operands are multiplied as integers: x / 10 * 4294967295 folds to x * 429496729.5 = 1.844674406511962e18 for x = 4294967295, the same operations on variables give -858993459.1",
 }
 
 
-def classify(ev):
-    """recorded findings whose exact expression shape occurs in the rejected expression"""
-    from valuesutil import nodes, evalx, num, chain, inexact_product
-    from decimal import Decimal, localcontext
-    env = ev["env"]
+# ---------------------------------------------------------------------------------------
+# exact port of util/dnum (New, Mul, Div, Add) and of the integer fast paths of core/ops.go
+# (OpAdd, OpMul, OpDiv: int64, wrapping).  Used ONLY to attribute an already rejected
+# expression to a recorded finding (does (1 / d) * c differ from c / d in the real
+# arithmetic?), never for a verdict.  Cross-checked against the real code on 200k random
+# operand pairs (+ - * /, integers up to 1e18, 1..16 digit decimals, exponents -30..30).
+from fractions import Fraction
 
-    def val(x):
-        return evalx(x, lambda i: env[i - 1])
+COEF_MAX = 10 ** 16 - 1
+EXP_MIN, EXP_MAX = -128, 127
+I64 = 1 << 63
+
+
+def dn_new(sign, coef, exp):
+    """dnum.New: (sign, coef, exp) with value sign * coef * 10^(exp-16), coef maximised to 16 digits"""
+    if sign == 0 or coef == 0 or exp < EXP_MIN:
+        return (0, 0, 0)
+    if sign in (2, -2):
+        return (sign, 1, 0)
+    atmax = False
+    while coef > COEF_MAX:
+        coef = (coef + 5) // 10
+        exp += 1
+        atmax = True
+    if not atmax:
+        p = 16 - len(str(coef))
+        coef *= 10 ** p
+        exp -= p
+    if exp > EXP_MAX:
+        return (2 if sign > 0 else -2, 1, 0)
+    return (sign, coef, exp)
+
+
+def dn_inf(sign):
+    return (2, 1, 0) if sign > 0 else (-2, 1, 0) if sign < 0 else (0, 0, 0)
+
+
+def dn_isinf(x):
+    return x[0] in (2, -2)
+
+
+def dn_from_int(n):
+    return dn_new(1 if n > 0 else -1, abs(n), 16) if n else (0, 0, 0)
+
+
+def dn_mul(x, y):
+    sign = x[0] * y[0]
+    if sign == 0:
+        return (0, 0, 0)
+    if dn_isinf(x) or dn_isinf(y):
+        return dn_inf(sign)
+    e7 = 10 ** 7
+    xhi, xlo = divmod(x[1], e7)
+    yhi, ylo = divmod(y[1], e7)
+    c = xhi * yhi
+    if xlo or ylo:
+        c += (xlo * yhi + ylo * xhi) // e7
+    return dn_new(sign, c, x[2] + y[2] - 2)
+
+
+def dn_div(x, y):
+    sign = x[0] * y[0]
+    if x[0] == 0:
+        return x
+    if y[0] == 0:
+        return dn_inf(x[0])
+    if dn_isinf(x):
+        if dn_isinf(y):
+            return dn_from_int(-1 if sign < 0 else 1)
+        return dn_inf(sign)
+    if dn_isinf(y):
+        return (0, 0, 0)
+    return dn_new(sign, x[1] * 10 ** 16 // y[1], x[2] - y[2])
+
+
+def dn_add(x, y):
+    if x[0] == 0:
+        return y
+    if y[0] == 0:
+        return x
+    if dn_isinf(x):
+        return (0, 0, 0) if y[0] == -x[0] else x
+    if dn_isinf(y):
+        return y
+    if x[2] < y[2]:
+        x, y = y, x
+    if x[2] == y[2]:
+        yc = y[1]
+    else:
+        e = x[2] - y[2]
+        if e > len(str(y[1])) - 1:
+            return x
+        yc = (y[1] + (5 * 10 ** (e - 1) if e else 0)) // 10 ** e
+    if x[0] == y[0]:
+        return dn_new(x[0], x[1] + yc, x[2])
+    if x[1] < yc:
+        return dn_new(-x[0], yc - x[1], x[2])
+    return dn_new(x[0], x[1] - yc, x[2])
+
+
+def dn_neg(x):
+    return (-x[0], x[1], x[2])
+
+
+# run-time numbers: ("i", n) = SuInt / SuInt64 (integer fast paths of core/ops.go, wrapping
+# at 64 bits), ("d", dnum)
+def wrap64(n):
+    return (n + I64) % (1 << 64) - I64
+
+
+def to_dn(x):
+    return dn_from_int(x[1]) if x[0] == "i" else x[1]
+
+
+def op_mul(x, y):
+    if x[0] == "i" and y[0] == "i":
+        return ("i", wrap64(x[1] * y[1]))
+    return ("d", dn_mul(to_dn(x), to_dn(y)))
+
+
+def op_div(x, y):
+    if x[0] == "i" and y[0] == "i" and y[1] != 0:
+        q = abs(x[1]) // abs(y[1])
+        if abs(x[1]) % abs(y[1]) == 0:
+            return ("i", wrap64(q if (x[1] < 0) == (y[1] < 0) else -q))
+    return ("d", dn_div(to_dn(x), to_dn(y)))
+
+
+def op_add(x, y):
+    if x[0] == "i" and y[0] == "i":
+        return ("i", wrap64(x[1] + y[1]))
+    return ("d", dn_add(to_dn(x), to_dn(y)))
+
+
+def op_neg(x):
+    return ("i", wrap64(-x[1])) if x[0] == "i" else ("d", dn_neg(x[1]))
+
+
+def nval(x):
+    """exact value of a run-time number (Fraction, or 'inf' / '-inf')"""
+    if x[0] == "i":
+        return Fraction(x[1])
+    s, c, e = x[1]
+    if s in (2, -2):
+        return "inf" if s > 0 else "-inf"
+    return Fraction(0) if s == 0 else s * Fraction(c) * Fraction(10) ** (e - 16)
+
+
+def same(x, y):
+    return nval(x) == nval(y)
+
+
+def from_abs(v, isint):
+    """run-time number of an abstract value (Values.tla form); false and "" convert to 0
+    (core.ToDnum); None for everything else"""
+    if v["t"] == "bool" and not v["b"] or v["t"] == "str" and not v["c"]:
+        return ("d", (0, 0, 0))
+    if v["t"] != "num":
+        return None
+    if v["ns"] == 0:
+        return ("i", 0) if isint else ("d", (0, 0, 0))
+    if v["ns"] in (2, -2):
+        return ("d", dn_inf(v["ns"]))
+    digits = int("".join(map(str, v["nd"])))
+    if isint:
+        return ("i", v["ns"] * digits * 10 ** (v["nx"] - len(v["nd"])))
+    return ("d", dn_new(v["ns"], digits, v["nx"] + 16 - len(v["nd"])))
+
+
+def muldiv(ops, const, variant="actual"):
+    """what the compiled code computes for a * / chain (compile/ast/folder.go foldMul, then
+    compile/codegen.go muldivExpr), ops = [(role, number)], const[i] = operand i is a constant.
+    variant "norecip": a chain that starts with a divisor starts with a factor instead of
+    1 / divisor; "exactq": the constants are only divided at compile time if the quotient
+    is exact (the repairs of fold-const-div-var-reciprocal / fold-inexact-constant-quotient)"""
+    ONE = ("i", 1)
+
+    def one(v):
+        return same(v, ONE)
+    mul, div, rest = ONE, ONE, []
+    for (role, v), c in zip(ops, const):
+        if not c:
+            rest.append((role, v))
+        elif role == "div":
+            div = op_mul(div, v)
+        else:
+            if nval(v) == 0:
+                return v
+            mul = op_mul(mul, v)
+    if not one(div) and (not one(mul) or not rest):
+        if variant == "exactq" and rest and not exact_quotient(mul, div):
+            rest += [("mul", mul), ("div", div)]
+            mul = div = ONE
+        else:
+            mul, div = op_div(mul, div), ONE
+    if one(div):
+        if not one(mul) or not rest:
+            rest.append(("mul", mul))
+    else:
+        rest.append(("div", div))
+    if variant == "norecip" and rest[0][0] == "div":
+        for i, (r, v) in enumerate(rest):
+            if r == "mul":
+                rest.insert(0, rest.pop(i))
+                break
+    acc = op_div(ONE, rest[0][1]) if rest[0][0] == "div" else rest[0][1]
+    divs = [v for r, v in rest[1:] if r == "div"]
+    for r, v in rest[1:]:
+        if r == "mul":
+            acc = op_mul(acc, v)
+    if divs:
+        d = divs[0]
+        for v in divs[1:]:
+            d = op_mul(d, v)
+        acc = op_div(acc, d)
+    return acc
+
+
+def exact_quotient(m, d):
+    a, b = nval(m), nval(d)
+    if isinstance(a, str) or isinstance(b, str) or b == 0:
+        return True
+    return nval(op_div(m, d)) == a / b
+
+
+def classify(ev, sub):
+    """recorded findings whose exact expression shape occurs in the rejected expression.
+    sub = the driver's side record for this event: the run-time result of every subexpression
+    (pre-order, evaluated by the real interpreter)"""
+    from valuesutil import nodes, chain
+    from itertools import combinations, product, permutations
+    ns = list(nodes(ev["x"]))
+    if sub is None or sub["src"] != ev["src"] or len(sub["sub"]) != len(ns):
+        raise ValueError("side record does not belong to %s" % ev["src"])
+    ent = {id(n): e for n, e in zip(ns, sub["sub"])}
+
+    def val(x):          # abstract value, None if the subexpression fails at run time
+        e = ent[id(x)]
+        return e["v"] if e["k"] == "v" else None
+
+    def rn(x):           # run-time number (false and "" count as 0 as in core.ToDnum)
+        e = ent[id(x)]
+        return from_abs(e["v"], e["int"]) if e["k"] == "v" else None
+
+    def num(x):          # exact value of a NUMBER operand (Fraction / "inf" / "-inf"), else None
+        v = val(x)
+        return nval(rn(x)) if v is not None and v["t"] == "num" else None
+
+    def fin(d):
+        return d is not None and not isinstance(d, str)
 
     def isint(d):
-        return d is not None and d.is_finite() and d == d.to_integral_value()
+        return fin(d) and d.denominator == 1
+    ONE = ("i", 1)
     fams = set()
-    for x in nodes(ev["x"]):
+    for x in ns:
         op = x["op"]
         if op == "x":
             continue
         vals = [val(a) for a in x["a"]]
-        nums = [num(v) for v in vals]
+        nums = [num(a) for a in x["a"]]
         # an operand that is (or folds to) the absorbing constant of the operator
         if op in ("and", "or") and any(v is not None and v["t"] == "bool" and v["b"] == (op == "or") for v in vals):
             fams.add("fold-absorbing-shortcut")
-        if op in ("mul", "bitand") and any(d is not None and d == 0 for d in nums):
+        if op in ("mul", "bitand") and any(fin(d) and d == 0 for d in nums):
             fams.add("fold-absorbing-shortcut")
-        if op == "bitor" and any(d is not None and d == 4294967295 for d in nums):
+        if op == "bitor" and any(fin(d) and d == 4294967295 for d in nums):
             fams.add("fold-absorbing-shortcut")
         # & | with an integer operand that does not fit 32 bits unsigned
         if op in ("bitand", "bitor") and any(isint(d) and (d < 0 or d > 4294967295) for d in nums):
             fams.add("fold-bits-32bit-allones")
         if op in ("mul", "div"):
-            ch = [(role, num(val(o))) for role, o in chain(x, ("mul", "div"))]
-            muls = [d for role, d in ch if role == "mul" and d is not None and d.is_finite()]
-            divs = [d for role, d in ch if role == "div" and d is not None and d.is_finite() and d != 0]
-            if any(d == 0 for d in muls):      # 0 * x, 0 / x
+            ch = chain(x, ("mul", "div"))
+            if any(fin(num(o)) and num(o) == 0 for role, o in ch if role == "mul"):      # 0 * x, 0 / x
                 fams.add("fold-absorbing-shortcut")
-            with localcontext() as c:
-                c.prec = 16
-                # constant / x evaluated as (1 / x) * constant
-                # (the constant is the folded product / quotient of any of the other constants)
-                from itertools import combinations
-                for k, d in enumerate(divs):
-                    rest = [("m", m) for m in muls] + [("d", o) for j, o in enumerate(divs) if j != k]
-                    for r in range(1, len(rest) + 1):
-                        for sub in combinations(rest, r):
-                            if not any(t == "m" for t, _ in sub):
-                                continue
-                            cst = Decimal(1)
-                            for t, v in sub:
-                                cst = cst * v if t == "m" else cst / v
-                            if (Decimal(1) / d) * cst != cst / d:
-                                fams.add("fold-const-div-var-reciprocal")
+            ops = [(role, rn(o)) for role, o in ch]
+            known = [(role, v) for role, v in ops if v is not None]
+            muls = [v for role, v in known if role == "mul" and fin(nval(v))]
+            divs = [v for role, v in known if role == "div" and fin(nval(v)) and nval(v) != 0]
+            # constant / x evaluated as (1 / x) * constant
+            # (the constant is the folded product / quotient of any of the other constants)
+            for k, d in enumerate(divs):
+                rest = [("m", m) for m in muls] + [("d", o) for j, o in enumerate(divs) if j != k]
+                for r in range(1, min(len(rest), 4) + 1):
+                    for sb in combinations(rest, r):
+                        if not any(t == "m" for t, _ in sb):
+                            continue
+                        cst = ONE
+                        for t, v in sb:
+                            cst = op_mul(cst, v) if t == "m" else op_div(cst, v)
+                        if not same(op_mul(op_div(ONE, d), cst), op_div(cst, d)):
+                            fams.add("fold-const-div-var-reciprocal")
             # x * m / d with the constants divided first
-            if any(inexact_product(m, d) for m in muls for d in divs):
-                fams.add("fold-inexact-constant-quotient")
+            for rm in range(1, min(len(muls), 3) + 1):
+                for ms in combinations(muls, rm):
+                    pm = ONE
+                    for v in ms:
+                        pm = op_mul(pm, v)
+                    if same(pm, ONE):
+                        continue
+                    for rd in range(1, min(len(divs), 3) + 1):
+                        for dsub in combinations(divs, rd):
+                            pd = ONE
+                            for v in dsub:
+                                pd = op_mul(pd, v)
+                            if not exact_quotient(pm, pd):
+                                fams.add("fold-inexact-constant-quotient")
+            # a / b / c is computed as a / (b * c): a zero divisor makes the product 0 and the
+            # signs of the other divisors are lost (+inf), unless folding has combined them
+            # with the dividend first (-inf)
+            dv = [nval(v) for role, v in known if role == "div"]
+            zerodiv = any(fin(d) and d == 0 for d in dv)
+            if zerodiv and any(d == "-inf" or fin(d) and d < 0 for d in dv):
+                fams.add("fold-zero-divisor-loses-sign")
+            # integer * integer beyond 64 bits wraps at run time (core.OpMul); folding changes
+            # which operands are multiplied as integers
+            overflow = False
+            for grp in ("mul", "div"):
+                ints = [v[1] for role, v in known if role == grp and v[0] == "i"]
+                for r in range(2, min(len(ints), 4) + 1):
+                    for sb in combinations(ints, r):
+                        p = 1
+                        for n in sb:
+                            p *= n
+                        if not -I64 <= p < I64:
+                            overflow = True
+            if overflow:
+                fams.add("int-mul-overflow-wraps")
+            # reciprocal / inexact quotient again, on the complete chain as compiled, for every
+            # choice of constant operands (only where the two shapes above cannot be the reason
+            # and all operands are finite numbers)
+            if len(known) == len(ops) and 2 <= len(ops) <= 6 and not zerodiv and not overflow \
+                    and all(fin(nval(v)) for role, v in ops):
+                for const in product((False, True), repeat=len(ops)):
+                    act = muldiv(ops, const)
+                    if not same(act, muldiv(ops, const, "norecip")):
+                        fams.add("fold-const-div-var-reciprocal")
+                    if not same(act, muldiv(ops, const, "exactq")):
+                        fams.add("fold-inexact-constant-quotient")
         if op in ("add", "sub"):
-            ds = [num(val(o)) for role, o in chain(x, ("add", "sub"))]
-            ds = [d for d in ds if d is not None and d.is_finite() and d != 0]
-            if len(ds) >= 2 and max(d.adjusted() for d in ds) - min(d.adjusted() for d in ds) >= 16:
+            ds = [num(o) for role, o in chain(x, ("add", "sub"))]
+            if spread(ds) >= 16:
                 fams.add("fold-reassociation-absorbs-small-term")
+        if op == "add" and x["a"][1]["op"] in ("add", "sub"):
+            # a + (b - c): the parenthesised sum is flattened into the enclosing one
+            # (folder.go commutative / nestedNary), also when nothing is constant
+            terms = [("add", x["a"][0])] + chain(x["a"][1], ("add", "sub"))
+            tv = [rn(o) for role, o in terms]
+            if all(v is not None for v in tv):
+                tv = [op_neg(v) if role == "sub" else v for (role, o), v in zip(terms, tv)]
+                structured = op_add(tv[0], rn(x["a"][1])) if rn(x["a"][1]) is not None else None
+                sums = set()
+                for pm in permutations(tv) if len(tv) <= 5 else [tv]:
+                    acc = pm[0]
+                    for v in pm[1:]:
+                        acc = op_add(acc, v)
+                    sums.add(nval(acc))
+                if structured is not None and (sums != {nval(structured)}):
+                    fams.add("fold-nested-sum-flattened")
     return fams
+
+
+def spread(ds):
+    """difference of the decimal exponents of the largest and the smallest non-zero finite term"""
+    import math
+    ex = []
+    for d in ds:
+        if d is None or isinstance(d, str) or d == 0:
+            continue
+        a = abs(d)
+        e = len(str(a.numerator)) - len(str(a.denominator))      # within 1 of floor(log10(a))
+        if a < Fraction(10) ** e:
+            e -= 1
+        ex.append(e)
+    return max(ex) - min(ex) if len(ex) >= 2 else 0
 
 
 def bad_lines(path):
@@ -166,9 +501,19 @@ def run(ctx):
         unknown, known = [], {}
         # testing aid (mutation runs): treat these families as recorded findings
         assume = set(filter(None, os.environ.get("VERIF_ASSUME_KNOWN", "").split(",")))
+        # side file of the driver: run-time results of the subexpressions, same line numbers
+        try:
+            subs = open(trace + ".sub").read().splitlines()
+        except OSError as e:
+            raise Infra("side file of the fold driver is missing: %s" % e)
+        if len(subs) != len(lines):
+            raise Infra("side file of the fold driver has %d lines, the trace %d" % (len(subs), len(lines)))
         for ln in bad:
             ev = json.loads(lines[ln - 1])
-            fams = classify(ev)
+            try:
+                fams = classify(ev, json.loads(subs[ln - 1]))
+            except ValueError as e:
+                raise Infra("line %d: %s" % (ln, e))
             kf = [f for f in fams if ctx.is_known(f) is not None or f in assume]
             if kf:
                 # a recorded finding is present in the expression: not reported again (families
